@@ -27,6 +27,9 @@ CLAIMED = {
  "C15": ("uninterpreted-hash ghost state (absorb/sum over byte sequences) with the RFC 5176 authenticator formula written independently in the spec; gating preconditions on the handlers at their call sites in receiveLoop; response bytes observed through a ghost snapshot of WriteToUDP; VCs discharged by z3/cvc5",
          "Deductive proof for the CoA/Disconnect listener: verifyRequestAuthenticator returns true iff the Request Authenticator verifies (16-byte comparison loop included); handlers are invoked only for complete, authentic datagrams whose attributes parse, and such a datagram produces exactly one response; the response carries code, identifier, length, attributes and a Response Authenticator that verifies against the request. One defect repaired (Reply-Message length), one recorded as known finding (default ACK without handler, pinned by an existing test).",
          "Trusted: VC generator, solvers, MD5 as an uninterpreted function (no cryptographic claim), assumed models of net.UDPConn Read/Write, callbacks assumed not to touch the socket/buffer.", "DESIGN.md §5 C15"),
+ "C16": ("ghost release counters set by the contracts of every release operation; whole-teardown postcondition on the DHCPv4 teardown path and exactly-once/none postconditions on RELEASE, DECLINE and expiry; VCs discharged by z3/cvc5",
+         "Deductive proof for the DHCPv4 server: ending a session by RELEASE, DECLINE or lease expiry returns (or quarantines) the address exactly once, removes NAT and QoS when configured, removes the MAC / VLAN-pair / circuit-id fast-path entries that exist, and issues exactly one Accounting-Stop iff a RADIUS session was started; a client without a lease causes no release. Two genuine defects (DECLINE and expiry released almost nothing) were found and repaired. PPPoE and RADIUS-disconnect paths are undecided.",
+         "Trusted: VC generator, solvers, trusted frames for the eBPF/QoS removers, goroutine closures executed inline, monitor model for the server's and pools' mutexes.", "DESIGN.md §5 C16"),
  "C09": ("zero-annotation safety sweep: index/slice/nil/div/make obligations + loop variants with Houdini-inferred invariants over every function reachable from the network-facing decoders, counterexamples replayed on the real code",
          "Deductive proof of absence of run-time panics and of loop termination measures for the obligations recorded in spec/C09.baseline.json (about 1700 obligations, 117 fully clean functions) for all byte strings and all receiver states; obligations that need caller-side contracts are listed as undecided and not claimed.",
          "Trusted: VC generator, solvers, assumed library contracts (encoding/binary, net, hash, zap...), third-party decoders assumed not to panic, heap havoc at un-contracted calls and lock acquisitions.", "DESIGN.md §5 C09"),
